@@ -2573,10 +2573,15 @@ def unravel_key(key):
 
 
 def unravel_keys(*keys):
-    """Unravels a sequence of keys."""
+    """Unravels a nested key (kept for backward compatibility: same as :func:`unravel_key`)."""
     if not is_compiling():
         return unravel_keys_cpp(*keys)
-    return tuple(unravel_key(key) for key in keys)
+    # same as the C++ binding, which is an alias of unravel_key: exactly one key
+    if len(keys) != 1:
+        raise TypeError(
+            f"unravel_keys() takes exactly one key but {len(keys)} were given."
+        )
+    return unravel_key(keys[0])
 
 
 def unravel_key_list(keys):
